@@ -241,6 +241,32 @@ replace %s => %s
 			die(2, "copy scen/%s: %v %s", sc, err, out)
 		}
 	}
+	// ... and the same once more for the ROOT module (it pins an older ZooKeeper client, samuel/go-zookeeper, with the
+	// same connection API): module "rb", a writable copy of that client, scen/s3 with the import paths rewritten
+	rbdir := filepath.Join(scratch, "rb")
+	must(os.MkdirAll(filepath.Join(rbdir, "scen", "s3"), 0755))
+	zkmodR := "github.com/samuel/go-zookeeper"
+	zkdirR, err := run(repoDir, goEnv, "go", "list", "-m", "-f", "{{.Dir}}", zkmodR)
+	if err != nil || strings.TrimSpace(zkdirR) == "" {
+		die(2, "locating %s: %v %s", zkmodR, err, zkdirR)
+	}
+	if out, err := run(verifDir, goEnv, "cp", "-r", strings.TrimSpace(zkdirR), filepath.Join(scratch, "zkr")); err != nil {
+		die(2, "copy zk (root): %v %s", err, out)
+	}
+	if out, err := run(verifDir, goEnv, "chmod", "-R", "u+w", filepath.Join(scratch, "zkr")); err != nil {
+		die(2, "chmod zk (root): %v %s", err, out)
+	}
+	must(os.WriteFile(filepath.Join(scratch, "zkr", "go.mod"), []byte("module "+zkmodR+"\n\ngo 1.18\n"), 0644))
+	rbgomod := strings.Replace(rgomod, "go 1.22.0", "go 1.25.0", 1) + fmt.Sprintf("\nreplace %s => %s\n", zkmodR, filepath.Join(scratch, "zkr"))
+	must(os.WriteFile(filepath.Join(rbdir, "go.mod"), []byte(rbgomod), 0644))
+	must(os.WriteFile(filepath.Join(rbdir, "go.sum"), append(append([]byte{}, sum...), rsum...), 0644))
+	s3files, _ := filepath.Glob(filepath.Join(verifDir, "scen", "s3", "*.go"))
+	for _, f := range s3files {
+		data, err := os.ReadFile(f)
+		must(err)
+		data = bytes.ReplaceAll(rootTransform(data), []byte(`"github.com/go-zookeeper/zk"`), []byte(`"github.com/samuel/go-zookeeper/zk"`))
+		must(os.WriteFile(filepath.Join(rbdir, "scen", "s3", filepath.Base(f)), data, 0644))
+	}
 }
 
 // addRuntimeSeam points the two runtime sites that decide user-visible order from unpinnable
@@ -436,7 +462,11 @@ func buildScenario(b *Batch) *builtBin {
 	}
 	logf("%s", strings.TrimSpace(out))
 	if b.Seams.ZkMap {
-		out, err = run(scratch, goEnv, filepath.Join(verifDir, "bin", "instrument"), "-dir", filepath.Join(scratch, "zk"), "-out", ovDir+"zk",
+		zkCopy := "zk"
+		if b.Module == "root" {
+			zkCopy = "zkr"
+		}
+		out, err = run(scratch, goEnv, filepath.Join(verifDir, "bin", "instrument"), "-dir", filepath.Join(scratch, zkCopy), "-out", ovDir+"zk",
 			"-overlay", overlay, "-merge", overlay, "-maporder", "all", "-stats", statsFile+".zk")
 		if err != nil {
 			die(2, "instrumenting the ZooKeeper client copy failed (exit 2: build trouble, not a violation): %v\n%s", err, out)
@@ -502,6 +532,9 @@ func buildScenario(b *Batch) *builtBin {
 	}
 	if b.Module == "root" {
 		gdir = filepath.Join(scratch, "r")
+		if b.Bubble {
+			gdir = filepath.Join(scratch, "rb")
+		}
 	}
 	out, err = run(gdir, goEnv, gobin, targs...)
 	if err != nil {
